@@ -28,6 +28,17 @@ CHECKS.update({
          "Stacks of 1..6 real tables with overlapping keys, tombstones and the empty key are built; stacked Get/Contains/scans, both compacting reductions (merged into a real table and read back) and the plain merge are compared with the union model. Exploration over seeded stacks.",
          "tombstone = nil value; nil values are filtered from merged read-backs before comparison", "§3 C08", "E1"),
 })
+CHECKS.update({
+ "C09": ("fault_enumeration", "fault enumeration on generated tables: every data-file byte x 13 replacement values, every truncation, every record swap, under both verification modes; oracle = written values",
+         "For each generated table every single-byte damage (bit flips, 00, FF, marker bytes), truncation length and record swap of the data file is materialised and read back through Get, Scan and ScanRange with verify-on-load and verify-on-read; any value different from the written one returned without error, or a panic, is a violation. Exhaustive over the enumerated damage for small tables, sampled over tables.",
+         "CRC collisions would show as violations; empty/nil values only constrained under byte damage of uncompressed tables (format design)", "§3 C09", "E1"),
+ "C15": ("exploration", "reference-model monitor + fault injection at the tag-guarded writer hook: accepted-pairs model vs real stream writer under arbitrary key sequences and clean data/index append failures",
+         "Seeded WriteNext programs with unsorted/repeated/empty keys and injected data- or index-append failures (incl. immediate retries) are run against the real writer; each call's result class, the table content after Close and every metadata field (vs real file sizes) are compared with the model.",
+         "injected failures are clean failures (wrapped writer untouched), the shape of the repository's own failing-writer test double", "§3 C15", "E1+E6a"),
+ "C20": ("exploration", "differential monitor: Kaitai-generated reader vs native reader vs independent layout parser on files written by the real writer; enum names read from the published .ksy",
+         "Files with nil/empty/large records under all four compression types are decoded by the repository's Kaitai-generated reader and compared record by record (count, nil flag, stored bytes) with the native reader and an independent parser; compression codes are checked against the enum in recordio_v4.ksy.",
+         "the generated Go reader stands for the schema (no kaitai-struct-compiler offline)", "§3 C20", "E1"),
+})
 NOT_YET = {}
 props = [json.loads(l) for l in open(os.path.join(ROOT, "properties.jsonl"))]
 hooks_commits = []
